@@ -804,6 +804,17 @@ func TestReplay(t *testing.T) {
 		rec.Report(t, hc, o)
 		return
 	}
+	if h.ReplayPart(p) == "endpoint" {
+		var ec EPCase
+		if err := h.LoadReplay(p, &ec); err != nil {
+			t.Fatal(err)
+		}
+		rec.MarkCurrent(ec)
+		o := runEPCase(ec)
+		fmt.Println("classes:", o.Classes)
+		rec.Report(t, ec, o)
+		return
+	}
 	if h.ReplayPart(p) == "opening" {
 		var oc OCase
 		if err := h.LoadReplay(p, &oc); err != nil {
